@@ -54,7 +54,7 @@ PROPS = {
                       "and empty non-nil, error nil/non-nil of three concrete types, *string, (int,X), (X,error)) at every chain position, invoked "
                       "reflectively and through the func() (int,string) fast path",
         "level_note": "trusts Coq kernel, extraction, glue; reflect's Value.IsZero/Kind behaviour is modelled for the supported shapes only; "
-                      "ReturnHandler override is exercised under C04",
+                      "a ReturnHandler mapped in the request or application scope is part of the model (C14_override) and of the generator",
         "rule": "random chains of 1-6 handlers where about half are pure 'return a value' handlers of a random supported shape (values: empty, "
                 "'s', 'hello', bytes 00ff; nil/empty slices; nil/non-nil errors; status from 7 codes). Non-trivial: the response is decided by a "
                 "return value (no earlier write); distinct by input.",
